@@ -187,6 +187,54 @@ def main():
           errors.append({"k": "estimator_raises", "meta": meta, "pattern": pname, "exc": repr(e)[:200]})
     except Exception as e:
       errors.append({"k": "exc", "meta": meta, "exc": repr(e)[:300]})
+  # two model inputs given in another order than they were created, each with its own source quantizer: the type map
+  # has to pair source quantizers with model.inputs
+  if shard == 3 % nshards:
+    for swap in (False, True):
+      meta = {"kind": "two_inputs", "wq": "bits4", "iq": "src", "bq": "none", "depth": 1}
+      try:
+        a = L.Input((4,), name="in_a")
+        b = L.Input((4,), name="in_b")
+        la = QDense(3, kernel_quantizer=WEIGHT_Q["bits4"][0](), use_bias=False, name="l1")
+        lb = QDense(3, kernel_quantizer=WEIGHT_Q["bits4"][0](), use_bias=False, name="l2")
+        out = L.Add(name="add")([la(a), lb(b)])
+        ins = [b, a] if swap else [a, b]
+        model = tf.keras.Model(ins, out)
+        src = {"in_a": Q.quantized_bits(8, 5, 1), "in_b": Q.quantized_bits(2, 0, 1)}      # a: wide, b: narrow
+        for l in (la, lb):
+          l.set_weights([np.full(l.get_weights()[0].shape, 0.875, dtype=np.float32)])
+        xa = np.full((1, 4), 31.75, dtype=np.float32)           # top code of quantized_bits(8,5,1)
+        xb = np.full((1, 4), 0.5, dtype=np.float32)             # top code of quantized_bits(2,0,1)
+        feed = {"in_a": xa, "in_b": xb}
+        probe = tf.keras.Model(ins, [la.output, lb.output])
+        pa, pb = probe.predict([feed[t.name] for t in ins], verbose=0)
+        q = run_qtools.QTools(model, process="horowitz", source_quantizers=[src[t.name] for t in ins], is_inference=False,
+                              weights_path=None, keras_quantizer="fp32", keras_accumulator="fp32", for_reference=False)
+        dmap = q._layer_map["layer_data_type_map"]
+        for l, xin_l, pre in ((la, xa, pa), (lb, xb, pb)):
+          get = lambda kk: qtools_util.get_val(dmap[l], kk)
+          p, pg = stats(pre)
+          events.append({"k": "layer", "jok": 1, "meta": meta, "pattern": "swapped" if swap else "declared", "layer": l.name, "cls": "QDense",
+                         "acc": reported(get("accumulator").output), "auto": 0, "wt": reported(get("weight_quantizer")),
+                         "it": reported(get("input_quantizer_list")[0]), "hasb": 0, "bt": reported(get("weight_quantizer")),
+                         "pre": p, "pregran": pg, "w": stats(l.get_weights()[0])[0], "b": [[0, 0], [0, 0]], "x": stats(xin_l)[0]})
+      except Exception as e:
+        errors.append({"k": "exc", "meta": meta, "exc": repr(e)[:300]})
+    # the weight-based estimator on a Sequential model (no InputLayer among its layers)
+    meta = {"kind": "sequential", "wq": "bits4", "iq": "relu4", "bq": "none", "depth": 1}
+    try:
+      seq = tf.keras.Sequential([QDense(3, kernel_quantizer=WEIGHT_Q["bits4"][0](), use_bias=False, name="l1", input_shape=(6,)),
+                                 QActivation("quantized_relu(4,1)", name="act"),
+                                 QDense(2, kernel_quantizer=WEIGHT_Q["bits4"][0](), use_bias=False, name="l2")])
+      seq.get_layer("l1").set_weights([np.full((6, 3), 0.875, dtype=np.float32)])
+      seq.get_layer("l2").set_weights([np.full((3, 2), 0.875, dtype=np.float32)])
+      xin = np.full((1, 6), 3.5, dtype=np.float32)
+      pre1 = tf.keras.Model(seq.inputs, seq.get_layer("l1").output).predict(xin, verbose=0)
+      sizes = estimate.analyze_accumulator(seq, {"l1": (0.0, 3.5), "l2": (0.0, 1.875)})
+      events.append({"k": "estimate", "meta": meta, "pattern": "sequential", "layer": "l1", "cls": "QDense", "size": int(sizes["l1"]),
+                     "obs": dy(float(np.max(np.abs(pre1)))), "range": [0.0, 3.5]})
+    except Exception as e:
+      errors.append({"k": "estimator_raises", "meta": meta, "pattern": "sequential", "exc": repr(e)[:200]})
   # depthwise layers with depth_multiplier > 1: the estimator has to look at every filter of every input channel
   if shard == 2 % nshards:
     for t in range(3):
